@@ -176,10 +176,18 @@ Proof. exact sb_member_exempt_writes. Qed.
 Print Assumptions C19_member_guard_refuted.
 
 Theorem C19_member_current_refused :
-  forall e, In e [sb_member_prog_global false; sb_member_prog_global true; sb_member_prog_call; sb_member_prog_nested;
-                  sb_member_prog_local (SbVariable sb_n_x []); sb_member_prog_local (sb_lit sb_n_x)] ->
-  sb_run_member sb_cur_facts e [] = (SbRErr SbESandbox, snd (sb_alloc sb_t_Dictionary [] (sb_member_st []))).
-Proof. exact sb_member_current_refused. Qed.
+  sb_run_member sb_cur_facts (sb_member_prog_global false) [] = (SbRErr SbESandbox, sb_member_refused_st) /\
+  sb_run_member sb_cur_facts (sb_member_prog_global true) [] = (SbRErr SbESandbox, sb_member_refused_st) /\
+  sb_run_member sb_cur_facts sb_member_prog_call [] = (SbRErr SbESandbox, sb_member_refused_st) /\
+  sb_run_member sb_cur_facts sb_member_prog_nested [] = (SbRErr SbESandbox, sb_member_refused_st) /\
+  sb_run_member sb_cur_facts (sb_member_prog_local (SbVariable sb_n_x [])) [] = (SbRErr SbESandbox, sb_member_refused_st).
+Proof.
+  exact (conj (@eq_refl _ (@SbRErr sb_val SbESandbox, sb_member_refused_st) <: sb_run_member sb_cur_facts (sb_member_prog_global false) [] = (SbRErr SbESandbox, sb_member_refused_st))
+        (conj (@eq_refl _ (@SbRErr sb_val SbESandbox, sb_member_refused_st) <: sb_run_member sb_cur_facts (sb_member_prog_global true) [] = (SbRErr SbESandbox, sb_member_refused_st))
+        (conj (@eq_refl _ (@SbRErr sb_val SbESandbox, sb_member_refused_st) <: sb_run_member sb_cur_facts sb_member_prog_call [] = (SbRErr SbESandbox, sb_member_refused_st))
+        (conj (@eq_refl _ (@SbRErr sb_val SbESandbox, sb_member_refused_st) <: sb_run_member sb_cur_facts sb_member_prog_nested [] = (SbRErr SbESandbox, sb_member_refused_st))
+              (@eq_refl _ (@SbRErr sb_val SbESandbox, sb_member_refused_st) <: sb_run_member sb_cur_facts (sb_member_prog_local (SbVariable sb_n_x [])) [] = (SbRErr SbESandbox, sb_member_refused_st)))))).
+Qed.
 Print Assumptions C19_member_current_refused.
 
 (* NATIVES.  Registered side-effect-free => established pure by the regenerated analysis ... *)
